@@ -14,7 +14,7 @@ from ..report import Report, key_of
 from ..terms import pretty
 from ..types import Ctx
 from .c05 import classify, persistent_data_classes
-from .common import TRUSTED_BASE, cfg_nodes_for, effects_of, expanded_facts, where
+from .common import TRUSTED_BASE, cfg_nodes_for, effects_of, expanded_facts, inl, where
 
 
 def load_guard_facts(A):
@@ -22,7 +22,7 @@ def load_guard_facts(A):
     f = A.cls('Task').lookup('data')
     cfg = A.cfg(f)
     out = []
-    for n in A.typer.own_nodes(f):
+    for n in inl(A, f):
         if isinstance(n, ast.Call) and isinstance(n.func, ast.Attribute) and n.func.attr == 'load':
             for cn in cfg_nodes_for(cfg, n):
                 fx = expanded_facts(A, f, cfg, cn.id)
@@ -87,7 +87,7 @@ def run(A, R: Report, thorough: bool):
         p = cfg.find_path([cfg.entry.id], [cfg.exit.id], avoid=nodes)
         R.check(bool(nodes) and p is None, 'R07.2', f'Task.force: {name}', key_of('postcondition', name), 'on every path to return',
                 f'Task.force can return without `{name}`: the next request would be served from memory/storage', witness=cfg.describe_path(p) if p else None, where=where(fforce))
-    dels = [n for n in A.typer.own_nodes(fforce) if isinstance(n, ast.Call) and isinstance(n.func, ast.Attribute) and n.func.attr == 'delete']
+    dels = [n for n in inl(A, fforce) if isinstance(n, ast.Call) and isinstance(n.func, ast.Attribute) and n.func.attr == 'delete']
     dparam = [p for p in fforce.params if 'delete' in p]
     R.require(dels and dparam, 'anchor: Task.force has no delete() call or delete_data parameter')
     for d in dels:
